@@ -1894,3 +1894,216 @@ spec('C03', correspond=lambda run, rng, tier: c01_correspond(run, rng, tier, whi
 spec('C04', correspond=lambda run, rng, tier: c01_correspond(run, rng, tier, symbol_heavy=True, which='C04'), replay=heap_replay, modules=HEAP_MODULES + ['C01', 'C04'],
      search=lambda run, rng, d: c01_correspond(run, random.Random(rng.random()), 'quick', symbol_heavy=True)['oracle_failures'],
      trusted=HEAP_TRUST, assumptions=['symbols compare by the address of their cell (Symbol::eq); a global is keyed by the printed name of its symbol, so a generated symbol used as a global name is keyed by its address text (observation)'])
+
+
+# ================================================================================================ C16
+
+def plist_show(xs):
+    return '(' + ' '.join(str(x) if not isinstance(x, (list, tuple)) else (plist_show(x) if isinstance(x, list) else f'(cons {x[0]} {x[1]})') for x in xs) + ')' if xs else '()'
+
+def c16_cases(rng, tier):
+    """(expression, expected) with expected = ('ok', printed, output) | ('sig', kind) | None (differential only)"""
+    cases = []
+    def lit(xs): return '(list ' + ' '.join(map(str, xs)) + ')' if xs else "'()"
+    lens = [0, 1, 2, 3, 17, 120] + ([700] if tier == 'thorough' else [])
+    for n in lens:
+        xs = [rng.randint(-50, 50) for _ in range(n)]
+        ys = [rng.randint(-50, 50) for _ in range(rng.choice([n, max(0, n - 1), n + 2]))]
+        k = rng.randint(1, 9)
+        L, M = lit(xs), lit(ys)
+        cases += [
+            (f'(map (lambda (x) (add x {k})) {L})', ('ok', plist_show([x + k for x in xs]), '')),
+            (f'(map list {L})', ('ok', plist_show([[x] for x in xs]), '')),
+            (f'(map (lambda (& r) r) {L})', ('ok', plist_show([[x] for x in xs]), '')),
+            (f'(foldl add {k} {L})', ('ok', str(k + sum(xs)), '')),
+            (f'(foldl (lambda (a x) (cons x a)) () {L})', ('ok', plist_show(xs[::-1]), '')),
+            (f'(foldl (lambda (a x) (substract a x)) {k} {L})', ('ok', str(k - sum(xs)), '')),
+            (f'(reverse {L})', ('ok', plist_show(xs[::-1]), '')),
+            (f'(length {L})', ('ok', str(n), '')),
+            (f'(zip {L} {M})', ('ok', plist_show([(a, b) for a, b in zip(xs, ys)]), '')),
+            (f'(enumerate {L})', ('ok', plist_show([(a, i) for i, a in enumerate(xs)]), '')),
+            (f'(append {L} {M})', ('ok', plist_show(xs + ys), '')),
+            (f'(concat {L} {M} {L})', ('ok', plist_show(xs + ys + xs), '')),
+            (f'(concat)', ('ok', '()', '')),
+            (f'(last {L})', ('ok', str(xs[-1]), '') if xs else ('sig', 'wrong-argument')),
+            (f'(init {L})', ('ok', plist_show(xs[:-1]), '')),
+            (f'(apply (lambda (& r) r) {L})', ('ok', plist_show(xs), '')),
+            (f'(apply + {L})', ('ok', str(sum(xs)), '')),
+            (f'(+ {" ".join(map(str, xs[:40]))})', ('ok', str(sum(xs[:40])), '')),
+            (f'(map (lambda (x) (block (output (print x)) x)) {lit(xs[:5])})', ('ok', plist_show(xs[:5]), ''.join(f'{x}\n' for x in xs[:5]))),
+        ]
+        if n <= 120:
+            cases += [(f'(foldr cons () {L})', ('ok', plist_show(xs), '')), (f'(foldr add {k} {L})', ('ok', str(k + sum(xs)), '')),
+                      (f'(foldr (lambda (x a) (substract x a)) 0 {L})', ('ok', str(sum(x if i % 2 == 0 else -x for i, x in enumerate(xs))), ''))]
+        if n >= 2:
+            # a function that signals on a chosen call: the signal is the outcome, later elements are not visited
+            j = rng.randrange(n)
+            cases.append((f'(map (lambda (x) (if (= x 777) (signal (quote stop)) (block (output "v") x))) {lit(xs[:j] + [777] + xs[j:])})', ('sigout', 'stop', 'v\n' * j)))
+    for n in [-3, -1, 0, 1, 2, 50]:
+        cases.append((f'(range {n})', ('ok', plist_show(list(range(max(0, n)))), '')))
+    for a, b in [(1, 2), (2, 1), (3, 3), (-1, 0), (I64MAX, I64MIN)]:
+        T = lambda v: 't' if v else '()'
+        cases += [(f'(/= {a} {b})', ('ok', T(a != b), '')), (f'(<= {a} {b})', ('ok', T(a <= b), '')), (f'(>= {a} {b})', ('ok', T(a >= b), ''))]
+    cases += [('(+)', ('ok', '0', '')), ('(*)', ('ok', '1', '')), ('(-)', ('ok', '0', '')), ('(/)', ('ok', '1', '')), ('(- 5)', ('ok', '-5', '')), ('(/ 5)', ('ok', '0', '')), ('(/ 1)', ('ok', '1', '')),
+              ('(- 10 1 2 3)', ('ok', '4', '')), ('(/ 100 2 5)', ('ok', '10', '')), ('(/ -7 2)', ('ok', '-3', '')), ('(* 2 3 4)', ('ok', '24', '')),
+              ('(+ 9223372036854775807 1)', ('sig', 'arithmetic-overflow')), ('(* 4611686018427387904 2)', ('sig', 'arithmetic-overflow')), ('(/ 1 0)', ('sig', 'divide-by-zero'))]
+    # control macros: each operand evaluated at most once and only when needed — traced through output
+    tag = '(defun tag (i v) "" (block (output (print i)) v))\n'
+    def m(expr, value, trace):
+        cases.append((tag + expr, ('ok', value, ''.join(f'{i}\n' for i in trace))))
+    for x in ('nil', '5'):
+        for y in ('nil', '7'):
+            xv, yv = (None if x == 'nil' else 5), (None if y == 'nil' else 7)
+            sh = lambda v: '()' if v is None else str(v)
+            m(f'(and (tag 1 {x}) (tag 2 {y}))', sh(yv if xv is not None else None), [1, 2] if xv is not None else [1])
+            m(f'(or (tag 1 {x}) (tag 2 {y}))', sh(xv if xv is not None else yv), [1] if xv is not None else [1, 2])
+            m(f'(when (tag 1 {x}) (tag 2 {y}))', sh(yv if xv is not None else None), [1, 2] if xv is not None else [1])
+        m(f'(not (tag 1 {x}))', 't' if x == 'nil' else '()', [1])
+    m('(block (tag 1 1) (tag 2 2) (tag 3 3))', '3', [1, 2, 3])
+    m('(block)', '()', [])
+    m('(let (a (tag 1 10) b (tag 2 20)) (add a b))', '30', [1, 2])
+    m('(let (a (tag 1 10)) (let (a (tag 2 20)) a))', '20', [1, 2])
+    m("(case ((tag 1 nil) (tag 2 'a)) ((tag 3 5) (tag 4 'b)) ((tag 5 t) (tag 6 'c)))", 'b', [1, 3, 4])
+    m("(case ((tag 1 nil) 'a))", '()', [1])
+    m("(try (tag 1 5) (catch-all (lambda (e) (tag 2 'caught))))", '5', [1])
+    m("(try (block (tag 1 1) (throw 'kind 'boom 'source 'here) (tag 2 2)) (catch other (lambda (e) (tag 3 'wrong))) (catch boom (lambda (e) (tag 4 (. e 'source)))) (catch-all (lambda (e) (tag 5 'all))))", 'here', [1, 4])
+    m("(try (signal 'plain) (catch boom (lambda (e) 'wrong)) (catch-all (lambda (e) (tag 1 e))))", 'plain', [1])
+    # known finding: apply on a fixed-arity function
+    cases.append(('(apply add (list 1 2))', ('ok', '3', ''), 'F20-apply-fixed-arity'))
+    cases.append(('(apply cons (list 1 2))', ('ok', '(cons 1 2)', ''), 'F20-apply-fixed-arity'))
+    return cases
+
+def c16_correspond(run, rng, tier):
+    cases = c16_cases(rng, tier)
+    progs = [c[0] for c in cases]
+    # the closures the prelude binds, as the real reader and evaluator build them from the current prelude.lisp, against the model's
+    names = ['foldl', 'foldr', 'reverse', 'zip', 'length', 'enumerate', 'map', 'last', 'init', 'range', 'append', 'concat', 'apply', 'when', 'and', 'or', 'not', 'let', 'block', 'case', 'try', 'throw', 'catch', '+', '-', '*', '/', '/=', '<=', '>=']
+    sessions = eval_sessions(progs) + eval_sessions(['\n'.join(f'(list (destructure-function {n}) (. (get-metadata {n}) (quote documentation)))' for n in names)])
+    real, model = both(sessions, timeout=600)
+    diffs = compare(sessions, real, model)
+    # the generated constants the theorems are about are what the model binds after loading the current prelude.lisp
+    pc, _ = lib.run_driver(model_cmd(), ['new prelude', 'preludecheck'], 120, True)
+    if len(pc) < 2 or not pc[1].startswith('ok'):
+        diffs.append({'session': 'preludecheck', 'request': 'preludecheck', 'real': '(generated constants of Generated/Prelude.lean)', 'model': str(pc)[:300]})
+    failures = crash_failures(sessions, real)
+    findings_seen = set()
+    dist = {'value-cases': 0, 'signal-cases': 0, 'trace-cases': 0}
+    for c, r in zip(cases, real):
+        expr, exp = c[0], c[1]
+        res, tr = parse_eval(r[1] if len(r) > 1 else '')
+        last = res[-1] if res else None
+        out = (tr or {}).get('out', '')
+        got = None
+        if last:
+            if last[0] == 'ok': got = ('ok', last[1], out)
+            elif last[0] == 'sig':
+                m = re.match(r'\(kind (\S+?)[ )]', last[1])
+                got = ('sig', m.group(1)) if m else ('sigout', last[1], out)
+                if exp[0] == 'sigout': got = ('sigout', last[1], out)
+        dist['signal-cases' if exp[0] != 'ok' else ('trace-cases' if exp[2] else 'value-cases')] += 1
+        if got != exp:
+            f = {'expression': expr, 'expected': list(exp), 'real': list(got) if got else (r[1] if len(r) > 1 else str(r))[:300], 'problem': 'a prelude function or macro does not return its documented result / evaluates an operand more than once or unnecessarily'}
+            if len(c) > 2:
+                f['finding'] = c[2]
+                findings_seen.add(c[2])
+            failures.append(f)
+    return {'evaluations': len(cases), 'distinct_nontrivial': len(set(progs)),
+            'rule': 'per prelude function: lists of length 0, 1, 2, 3, 17, 120 (700 in the thorough tier) with function arguments native fixed / native variadic / closure fixed / closure variadic / closure that signals on a chosen call / closure with an output side effect; '
+                    'range for -3, -1, 0, 1, 2, 50; comparison and variadic arithmetic incl. the 0- and 1-argument cases and overflow; control macros (and or when not block let case try/catch/throw) with operands that print a tag when evaluated; '
+                    'value, signal kind and output trace compared between the real interpreter, the model and the documented meaning (Python); plus the closures bound by the current prelude.lisp (real vs model) and the generated constants the theorems are about',
+            'samples': [progs[0], progs[20], progs[-6]], 'disagreements': diffs, 'oracle_failures': failures, 'distribution': dist, 'findings_seen': findings_seen}
+
+spec('C16', correspond=c16_correspond, replay=generic_replay, modules=['C16'],
+     search=lambda run, rng, d: c16_correspond(run, random.Random(rng.random()), 'quick')['oracle_failures'],
+     trusted=['the evaluator model is tied to eval/mod.rs by differential execution', 'Generated/Prelude.lean is regenerated from prelude.lisp on every run and compared with what the model binds (preludecheck)', 'the correspondence check'],
+     assumptions=['foldr, init and concat are not tail recursive: lists longer than about half the depth limit raise stackoverflow (stated, not a deviation from the documentation)',
+                  'known finding F20: apply on a function without a rest parameter'])
+
+
+# ================================================================================================ C02
+
+def c02_programs(rng, n):
+    progs = []
+    # deliberately order-sensitive: the same name in two loaded modules, whereis, ambiguity reports
+    mods = ['alpha', 'beta', 'gamma', 'delta', 'eps', 'zeta', 'eta', 'theta']
+    for _ in range(max(8, n // 8)):
+        k = rng.randint(2, 6)
+        chosen = rng.sample(mods, k)
+        forms = [f'(load-all "(define (quote shared) {i} (list)) (define (quote only-{m}) {i} (list))" "{m}")' for i, m in enumerate(chosen)]
+        forms += ["(whereis (quote shared))", "(eval (trap shared (. *trapped-signal* (quote conflicting-modules))))", f"(whereis (quote only-{chosen[0]}))",
+                  f"(from-module (quote shared) (quote {chosen[-1]}))", "(eval (trap (with-current-module (quote shared) (quote default)) (. *trapped-signal* (quote conflicting-modules))))"]
+        progs.append('\n'.join(forms))
+    # allocation-heavy programs: deep lists built in tail loops, closures that outlive their creator, gensyms, output
+    fixed = ["(defun build (n acc) \"\" (if (= n 0) acc (build (substract n 1) (cons n acc))))\n(length (build 3000 nil))\n(foldl add 0 (map (lambda (x) (multiply x x)) (build 500 nil)))",
+             "(defun adder (n) \"\" (lambda (x) (add x n)))\n(define 'fs (map adder (range 50)) \"\")\n(map (lambda (f) (f 1)) fs)",
+             "(define 'g (gensym) \"\")\n(list (= g g) (= g (gensym)) (= (quote a) (read-simple \"a\")) (print g))",
+             "(reverse (map (lambda (x) (block (output (print x)) (list x (list x)))) (range 40)))",
+             "(let (xs (range 300)) (list (length (zip xs (reverse xs))) (last (enumerate xs))))",
+             "(map (lambda (s) (read-simple s)) (list \"(a b)\" \"12\" \"%c\" \"sym\"))",
+             "(print (list (lambda (x) x) (make-trap 1 2) (gensym) car))"]
+    progs += fixed
+    for _ in range(n):
+        g = Gen(rng, ALL, fault_rate=0.1)
+        progs.append(g.program())
+    return progs
+
+def c02_correspond(run, rng, tier):
+    progs = c02_programs(rng, 250 if tier == 'quick' else 4000)
+    scheds = ['natural', 'every:1', 'every:7', 'lcg:%d:40' % rng.randrange(1 << 30)] + (['every:2', 'lcg:%d:128' % rng.randrange(1 << 30)] if tier == 'thorough' else [])
+    sessions, meta = [], []
+    for p in progs:
+        for sc in scheds:
+            sessions.append(['new prelude', f'sched {sc}', 'poison 1', 'eval ' + hexs(p), 'sched natural', 'audit'])
+            meta.append((p, sc))
+    real = run_sessions(real_cmd(), sessions, 900, 12)
+    # the model has no heap: one run per program is compared with all schedules of the real interpreter
+    msessions = [['new prelude', 'sched natural', 'poison 1', 'eval ' + hexs(p), 'sched natural', 'audit'] for p in progs]
+    model = run_sessions(model_cmd(), msessions, 900, 12, big_stack=True)
+    diffs, failures = [], []
+    failures += crash_failures(sessions, real)
+    by_prog = {}
+    for (p, sc), r in zip(meta, real):
+        by_prog.setdefault(p, []).append((sc, [canon(x) for x in r]))
+    for i, p in enumerate(progs):
+        runs = by_prog[p]
+        base_sc, base = runs[0]
+        for sc, r in runs[1:]:
+            if r[3:4] != base[3:4]:
+                failures.append({'expression': p, 'schedules': [base_sc, sc], 'problem': 'the same program gives different results under two collection schedules',
+                                 'under_first': (base[3] if len(base) > 3 else str(base))[:300], 'under_second': (r[3] if len(r) > 3 else str(r))[:300]})
+                break
+        for sc, r in runs:
+            if r and not r[-1].startswith('ok'):
+                failures.append({'expression': p, 'schedules': [sc], 'problem': 'handle audit / heap invariants after the run: ' + r[-1][:200]})
+                break
+        m = [canon(x) for x in model[i]]
+        if m[3:4] != base[3:4]:
+            diffs.append({'session': i, 'line': 3, 'request': sessions[i * len(scheds)][3], 'real': (base[3] if len(base) > 3 else str(base))[:2000], 'model': (m[3] if len(m) > 3 else str(m))[:2000]})
+    # fresh processes: independent hash seeds and address-space layouts
+    import subprocess
+    proc_progs = [p for p in progs if 'load-all' in p][:10] + progs[-6:]
+    nproc = 3 if tier == 'quick' else 10
+    from concurrent.futures import ThreadPoolExecutor
+    def one(p):
+        expr = '(block ' + p.replace('\n', ' ') + ')'
+        outs = []
+        for _ in range(nproc):
+            q = subprocess.run([lib.PLAIN_BIN, '--expression', expr], capture_output=True, timeout=300)
+            outs.append(re.sub(r'0x[0-9a-f]+', '0x?', (q.stdout + b'|' + q.stderr).decode('utf-8', 'replace')))
+        return p, outs
+    with ThreadPoolExecutor(max_workers=8) as ex:
+        for p, outs in ex.map(one, proc_progs):
+            if len(set(outs)) != 1:
+                failures.append({'expression': p, 'problem': 'fresh processes (independent hash seeds / address layouts) print different results', 'outputs': [o[:300] for o in sorted(set(outs))]})
+    return {'evaluations': len(sessions) + len(proc_progs) * nproc, 'distinct_nontrivial': len(set(progs)),
+            'rule': f'generated programs (prelude macros, strings, gensym, define, closures that outlive their creator, output, deep lists built in tail loops) and programs that load several modules defining the same name and ask whereis / trigger ambiguity reports, '
+                    f'each under the collection schedules {scheds} with poisoned swept cells, compared with each other (the oracle), with the model, and followed by a handle audit; plus {nproc} fresh processes of the plain binary per program '
+                    '(independent hash seeds and address-space layouts), outputs compared after masking 0x… address text',
+            'samples': [progs[0][:300], progs[len(progs) // 2][:200]], 'disagreements': diffs, 'oracle_failures': failures,
+            'distribution': {'programs': len(progs), 'schedules': len(scheds), 'process_runs': len(proc_progs) * nproc}}
+
+spec('C02', correspond=c02_correspond, replay=generic_replay, modules=['C02', 'C14'], plain=True,
+     search=lambda run, rng, d: c02_correspond(run, random.Random(rng.random()), 'quick')['oracle_failures'],
+     trusted=HEAP_TRUST + ['real hash seeds and address-space layouts are runtime behaviour: exercised with fresh processes, not proved'],
+     assumptions=['the Rust evaluator is a client of the heap API in the sense of the theorem (cells are reached only through GcRef handles): a fact of the Rust type system, checked dynamically by running it under forced collection schedules with poisoned swept cells',
+                  'the only permitted variation is the address text inside the printed form of functions, traps and generated symbols (masked)'])
